@@ -69,6 +69,9 @@ def positions(chain, base):
         out.append(("class_field_after_plain", {"k": "cls", "c": "GW"}, {"k": "cls", "c": "GP"}))
         # the same, with the holder class and the wrapper declared in another module than the wrapped type
         out.append(("class_field_cross_module", {"k": "cls", "c": "HW"}, {"k": "cls", "c": "HP"}))
+        # a class in another module derived from the holder: the inherited member's annotation is a text written in the holder's
+        # module (where the wrapper is defined), it means what it means there
+        out.append(("inherited_cross_module", {"k": "cls", "c": "IW"}, {"k": "cls", "c": "IP"}))
     if chain[0] not in ("final", "classvar"):
         out.append(("tuple_plain_then_wrapped", {"k": "tup", "xs": [T, LIST(W), W]}, {"k": "tup", "xs": [T, LIST(T), T]}))
     if inner and base.get("k") == "cls" and base.get("c") == "R1":
@@ -91,6 +94,10 @@ def case_defs(chain, base):
         defs["SubP"] = {"flavour": "dataclass", "module": "m2", "py": "SubP", "fields": [["q", base, False]]}
         defs["HW"] = {"flavour": "dataclass", "module": "m2", "py": "HW", "fields": [["a", {"k": "cls", "c": "SubA"}, False], ["b", {"k": "cls", "c": "SubW"}, False]]}
         defs["HP"] = {"flavour": "dataclass", "module": "m2", "py": "HP", "fields": [["a", {"k": "cls", "c": "SubA"}, False], ["b", {"k": "cls", "c": "SubP"}, False]]}
+        defs["IW"] = {"flavour": "dataclass", "module": "m2", "py": "IW", "base": "FW",
+                      "fields": [["n", P("int"), False], ["x", W, False], ["more", OPT(P("date")), True]]}
+        defs["IP"] = {"flavour": "dataclass", "module": "m2", "py": "IP", "base": "FP",
+                      "fields": [["n", P("int"), False], ["x", base, False], ["more", OPT(P("date")), True]]}
     if inner:
         defs["RW"] = {"flavour": "dataclass", "module": "m1", "py": "RW",
                       "fields": [["v", P("int"), False], ["nxt", OPT(wrap(inner, {"k": "cls", "c": "RW"})), True]]}
@@ -119,7 +126,7 @@ def norm(out):
     """Twin classes FW/FP and RW/RP are the same class up to their name."""
     s = json.dumps(out)
     for a, b in (("m1.FW", "m1.F"), ("m1.FP", "m1.F"), ("m1.RW", "m1.R"), ("m1.RP", "m1.R"), ("m1.GW", "m1.G"), ("m1.GP", "m1.G"),
-                 ("m2.HW", "m2.H"), ("m2.HP", "m2.H"), ("m2.SubW", "m2.Sub"), ("m2.SubP", "m2.Sub")):
+                 ("m2.HW", "m2.H"), ("m2.HP", "m2.H"), ("m2.SubW", "m2.Sub"), ("m2.SubP", "m2.Sub"), ("m2.IW", "m2.I"), ("m2.IP", "m2.I")):
         s = s.replace(a, b)
     return json.loads(s)
 
